@@ -496,6 +496,29 @@ pub fn worker(w: &mut Worker) {
             check_program(w, &rig, name, &text, &[], horizon);
         }
     }
+    // lines that run nothing (blank lines, comments, bare labels) between, before and after the lines that
+    // do: a halt raised by the line before them stops the run in front of whatever follows them, the last
+    // line of the script included
+    {
+        let fillers: [(&str, &str); 7] = [("blank", "\n"), ("comment", "# note\n"), ("label", ":mark\n"), ("blank-comment", "\n# note\n"), ("all-three", "\n# note\n:mark\n"), ("two-labels", ":m1\n:m2\n"), ("many", "\n\n# a\n# b\n:m1\n\n")];
+        for (fname, filler) in fillers {
+            let shapes = [
+                ("before-last", format!("a = set 1\n{}b = set 2", filler)),
+                ("before-last-of-three", format!("a = set 1\nb = set 2\n{}c = set 3", filler)),
+                ("between-and-before-last", format!("a = set 1\n{}b = set 2\n{}c = set 3", filler, filler)),
+                ("in-the-middle", format!("a = set 1\n{}b = set 2\nc = set 3\nd = set 4", filler)),
+                ("trailing", format!("a = set 1\nb = set 2\n{}", filler)),
+                ("before-last-jump", format!(":top\ni = calc ${{i}} + 1\n{}goto :top", filler)),
+                ("before-last-block-end", format!("while true\ni = calc ${{i}} + 1\n{}end", filler)),
+                ("leading", format!("{}a = set 1\nb = set 2", filler)),
+            ];
+            for (sname, text) in shapes {
+                if w.take() {
+                    check_program(w, &rig, &format!("filler-{}-{}", fname, sname), &text, &[], horizon);
+                }
+            }
+        }
+    }
     // halting late: thousands of command entries into loops that are still running
     {
         let late: Vec<usize> = with_thresholds_usize(tier.pick(vec![999, 5000], vec![999, 5000, 5001, 60_000]), tier.pick(1024, 16384));
@@ -579,7 +602,7 @@ pub fn crash_sig(_case: &Value, kind: &str) -> String {
     kind.to_string()
 }
 
-pub const RULE: &str = "programs: 34 hand-written scripts over the standard library (straight line, nested runs started by a command on the same halt flag, goto loops, while true, for-in, nested loops, error path with on_error, functions plain/scoped/in condition position, script-implemented commands, alias, scope stack; 7 of them do not terminate) and the generated block programs of C04 under fixed answer tapes; every registered command (library, flow control, harness) is re-registered behind a wrapper that logs the entry with its nesting depth and is the scheduling point. For every command entry k of the unhalted run up to the horizon, top level or nested, plus k=0 (flag set before the run), the flag is raised at that point by the command itself and, separately, by a second OS thread the wrapper hands control to over a rendezvous channel. Oracle: the halted run returns Ok; its entry log equals the unhalted log up to the end of the top-level instruction in flight; no further top-level instruction starts; returned variables and the collections behind the handle table equal those at that boundary of the unhalted run. evaluations = programs; transitions = runs; non-trivial = program with nested command entries or non-terminating. Scale cases: the flag raised 999 / 5000 (thorough also 5001 and 60000) command entries into an endless while loop, a loop nest and a loop calling a function, by the command itself and by the second thread. Programs include instructions that jump to their own line (goto to its own label, by a variable, a command answering GoTo(own line) three times or for ever)";
+pub const RULE: &str = "programs: 34 hand-written scripts over the standard library (straight line, nested runs started by a command on the same halt flag, goto loops, while true, for-in, nested loops, error path with on_error, functions plain/scoped/in condition position, script-implemented commands, alias, scope stack; 7 of them do not terminate) and the generated block programs of C04 under fixed answer tapes; every registered command (library, flow control, harness) is re-registered behind a wrapper that logs the entry with its nesting depth and is the scheduling point. For every command entry k of the unhalted run up to the horizon, top level or nested, plus k=0 (flag set before the run), the flag is raised at that point by the command itself and, separately, by a second OS thread the wrapper hands control to over a rendezvous channel. Oracle: the halted run returns Ok; its entry log equals the unhalted log up to the end of the top-level instruction in flight; no further top-level instruction starts; returned variables and the collections behind the handle table equal those at that boundary of the unhalted run. evaluations = programs; transitions = runs; non-trivial = program with nested command entries or non-terminating. Scale cases: the flag raised 999 / 5000 (thorough also 5001 and 60000) command entries into an endless while loop, a loop nest and a loop calling a function, by the command itself and by the second thread. Programs include instructions that jump to their own line (goto to its own label, by a variable, a command answering GoTo(own line) three times or for ever) Filler lines: 7 fillers (blank, comment, bare label and mixtures) x 8 places (before the last line, before the last of three, between and before the last, in the middle, trailing, before a last jump, before a last block end, leading): a halt raised by the line before them stops the run in front of whatever follows them.";
 pub const ASSUMPTIONS: &[&str] = &["the setter's only visible action is one SeqCst store on the shared AtomicBool; the runner's only visible actions on it are its polls, so placing the store at every command entry plus 'before the run' covers the interleaving space at command-entry granularity", "a store landing inside a single command's Rust body is indistinguishable from a store at its entry as long as commands do not read the flag"];
 pub const EXHAUSTIVE: bool = true;
 pub const WALL_CAP_S: (u64, u64) = (55, 1500);
